@@ -192,7 +192,10 @@ def run(chk, facts):
         ok = len(te) == 1 and any(f == "except" and src(strip(tail_expr(v) or v)) == "except" for f, v in te[0]["fields"])
         chk.ob("R-C08-4", "excepts-stored", ok, "the collected clauses are stored in TryExcept.except" if ok else "TryExcept.except is not the collected clause vector", loc)
         att = [v for f, v in te[0]["fields"] if f == "attempt"] if te else []
-        ok = bool(att) and "convert_node(&expr_or_stmt" in src(att[0]).replace(" ", "").replace("convert_node(&", "convert_node(&")
+        from . import symeval
+        se = symeval.SymEval(syn, "generate::convert")
+        av = se.ev(att[0], {"expr_or_stmt": ("var", "expr_or_stmt")}) if att else ("opaque", "-")
+        ok = av[0] == "conv" and av[1] == "expr_or_stmt"   # whatever references / clones are around it
         chk.ob("R-C08-4", "attempt=guarded-expression", ok, "the try body is the guarded expression" if ok else "TryExcept.attempt is not the converted guarded expression", loc)
     except AnchorError as e:
         chk.anchor_fail("R-C08-4", e)
